@@ -1288,4 +1288,65 @@ theorem serialise_take_length_le (its : List Item) (j : Nat) : (serialise (its.t
   conv_rhs => rw [← List.take_append_drop j its, serialise_append]
   simp
 
+/-! ### whatever the bytes and the cache are, a search only returns items parsed from a retained data file -/
+
+theorem scanEnd_subset (bs es : Nat) (res : Bytes) (l : List Item) : ∀ x ∈ (scanEnd bs es res l).1, x ∈ l := by
+  induction l with
+  | nil => simp [scanEnd]
+  | cons it r ih =>
+    intro x hx
+    unfold scanEnd at hx
+    by_cases h1 : it.ts / 1000 < bs ∨ it.ts / 1000 > es
+    · rw [if_pos h1] at hx; simp at hx
+    · rw [if_neg h1] at hx
+      by_cases hm : resMatch res it = true
+      · simp only [hm, if_true] at hx
+        rcases List.mem_cons.1 hx with rfl | hx
+        · simp
+        · exact List.mem_cons_of_mem _ (ih x hx)
+      · simp only [hm] at hx
+        exact List.mem_cons_of_mem _ (ih x hx)
+
+/-- `x` was parsed from a line of one of the data files of `fs` -/
+def FromFiles (fs : Dir) (x : Item) : Prop := ∃ f ∈ fs, ∃ off, x ∈ itemsFrom f.data off
+
+theorem readByEnd_fromFiles (fs : Dir) (off b e : Nat) (res : Bytes) :
+    ∀ x ∈ readByEnd fs off b e res, FromFiles fs x := by
+  cases fs with
+  | nil => simp [readByEnd]
+  | cons f r =>
+    intro x hx
+    rw [readByEnd_eq] at hx
+    have := scanEnd_subset _ _ _ _ x hx
+    rcases List.mem_append.1 this with h | h
+    · exact ⟨f, by simp, off, h⟩
+    · obtain ⟨g, hg, hxg⟩ := List.mem_flatMap.1 h
+      exact ⟨g, List.mem_cons_of_mem _ hg, 0, hxg⟩
+
+theorem searchLoop_fromFiles (doRead : Dir → Nat → List Item) (b o : Nat) (fs : Dir) (c : Cache)
+    (hread : ∀ d off, ∀ x ∈ doRead d off, FromFiles d x) :
+    ∀ x ∈ (searchLoop doRead b o fs c).2, FromFiles fs x := by
+  induction fs generalizing c with
+  | nil => simp [searchLoop]
+  | cons f r ih =>
+    intro x hx
+    unfold searchLoop at hx
+    rcases hres : findOffsetToStart f c b o with ⟨c', fd⟩
+    rw [hres] at hx
+    cases fd with
+    | «at» off => exact hread _ _ x hx
+    | notFound =>
+      obtain ⟨g, hg, hh⟩ := ih c' x hx
+      exact ⟨g, List.mem_cons_of_mem _ hg, hh⟩
+    | error =>
+      obtain ⟨g, hg, hh⟩ := ih c' x hx
+      exact ⟨g, List.mem_cons_of_mem _ hg, hh⟩
+
+theorem find_fromFiles (fs : Dir) (c : Cache) (b e : Nat) (res : Bytes) :
+    ∀ x ∈ (find fs c b e res).2, FromFiles fs x := by
+  intro x hx
+  unfold find search at hx
+  obtain ⟨g, hg, hh⟩ := searchLoop_fromFiles _ b _ _ c (fun d off => readByEnd_fromFiles d off b e res) x hx
+  exact ⟨g, List.mem_of_mem_drop hg, hh⟩
+
 end Sentinel.MetricLog
